@@ -11,7 +11,7 @@ from .c12 import mutate
 from .c15 import utils_documents
 from .c16 import dump_to_jv
 
-EDITS = ["identity", "permute", "string_change", "bool_flip", "type_change", "key_rename", "member_add", "member_drop", "element_add",
+EDITS = ["identity", "permute", "key_case_in_array", "key_case_in_array", "string_change", "bool_flip", "type_change", "key_rename", "member_add", "member_drop", "element_add",
          "element_drop", "element_drop", "element_swap", "number_step", "key_case"]
 
 
@@ -24,6 +24,34 @@ def edit(jv, kind, rnd):
         sites = [n for n in model.walk_jv(out) if n[0] == "N"]
         n = rnd.choice(sites)
         n[1] = n[1] + rnd.choice([1.0, -1.0, 0.5, 3.0, -0.125])
+        return out, True
+    if kind == "key_case_in_array":
+        # flip the case of one key of an object that sits (at any depth) below an array
+        sites = []
+
+        def rec(n, below_array):
+            if n[0] == "O":
+                if below_array:
+                    for m in n[1]:
+                        if m[0].swapcase() != m[0]:
+                            sites.append((n, m))
+                for _, v in n[1]:
+                    rec(v, below_array)
+            elif n[0] == "A":
+                for v in n[1]:
+                    rec(v, True)
+        out = copy.deepcopy(jv)
+        rec(out, False)
+        if not sites:
+            return jv, False
+        obj, m = rnd.choice(sites)
+        k = m[0]
+        pos = [j for j, ch in enumerate(k) if (65 <= ch <= 90 or 97 <= ch <= 122)]
+        j = rnd.choice(pos)
+        newk = k[:j] + bytes([k[j] ^ 0x20]) + k[j + 1:]
+        if any(mm[0] == newk for mm in obj[1]):
+            return jv, False
+        m[0] = newk
         return out, True
     out, ok = mutate(jv, kind, rnd)
     # the domain is documents with distinct keys per object: an edit that would create a duplicate key is dropped
